@@ -75,7 +75,11 @@ func genC04(r *sim.Rand, tier string) *sim.Program {
 			// the associated-data length encodings of CCM change at 2^16-2^8 and 2^16 (RFC 3610); same classes for GCM
 			al = r.PickInt(0xfeff, 0xff00, 0xff01, 0xff80, 0xffff, 0x10000, 0x10001)
 		}
-		op := p.Add("seal", lenPick(), al, r.Weighted(4, 3, 2, 2, 1), r.Intn(256))
+		pl := lenPick()
+		if ccm && p.C("nonce") == 13 && r.Chance(1, 12) {
+			pl = 65535 - r.Intn(19) // within a tag length of the CCM maximum for a 2-octet length field
+		}
+		op := p.Add("seal", pl, al, r.Weighted(4, 3, 2, 2, 1, 2), r.Intn(256))
 		nonce := r.Bytes(p.C("nonce"))
 		if !ccm && p.C("nonce") == 16 && r.Chance(1, 2) {
 			// crafted later from this J0: low 32 bits just below the wrap
@@ -176,6 +180,9 @@ func execC04(t *testing.T, p *sim.Program, c *sim.Ctx) {
 	}
 	mopen := func(nonce, sealed, aad []byte) ([]byte, bool) {
 		if ccm {
+			if l := 15 - len(nonce); l < 8 && len(sealed)-ts >= 1<<(8*uint(l)) {
+				return nil, false // longer than the length field of this nonce size can express: not a CCM message
+			}
 			return aead.CCMOpen(mb, nonce, sealed, aad, ts)
 		}
 		return aead.GCMOpen(mb, nonce, sealed, aad, ts)
@@ -346,6 +353,21 @@ func execC04(t *testing.T, p *sim.Program, c *sim.Ctx) {
 					return
 				}
 				got = out[len(pre):]
+			case 5: // prefix with MORE spare capacity than needed: only the appended region may be written
+				cn := sim.NewCanary(len(pre), 8, pl+ts+48, 0x5a)
+				copy(cn.Buf, pre)
+				d := cn.WithSpare(pl + ts + 32)
+				out := a.Seal(d, nonce, pt, aad)
+				if len(out) != len(pre)+pl+ts || !bytes.Equal(out[:len(pre)], pre) {
+					c.Fail("seal-append", i, op.K, "Seal did not append to dst")
+					return
+				}
+				if ok, off := cn.Intact(len(pre) + pl + ts); !ok {
+					c.Fail("out-of-slice-write", i, op.K, "Seal wrote behind the appended region (offset %d of a dst with %d bytes of spare capacity; %d were appended)", off, pl+ts+32, pl+ts)
+					return
+				}
+				got = out[len(pre):]
+				c.Hit("probe:seal-into-larger-capacity")
 			case 4: // plaintext and aad flush against guard pages
 				g1, g2 := sim.GuardEnd(pl), sim.GuardEnd(al)
 				copy(g1.Buf, pt)
